@@ -1977,6 +1977,10 @@ fn has_define_component_option(object: &ObjectLit, name: &str) -> bool {
 
 /// whether `inject_define_component_option` would add the option `name` to this call
 fn can_inject_define_component_option(call: &CallExpr, name: &str) -> bool {
+    // a spread argument list is left alone: what it supplies is not known
+    if call.args.iter().any(|arg| arg.spread.is_some()) {
+        return false;
+    }
     match call.args.get(1) {
         Some(ExprOrSpread {
             spread: Some(..), ..
@@ -2008,8 +2012,9 @@ fn inject_define_component_option(call: &mut CallExpr, name: &'static str, value
             ),
         ],
     );
-    if call.args.is_empty() {
-        // no component to describe: the options would become the first argument
+    if call.args.is_empty() || call.args.iter().any(|arg| arg.spread.is_some()) {
+        // no component to describe (the options would become the first argument), or a
+        // spread argument list: left alone
         return;
     }
     let options = call.args.get_mut(1);
